@@ -95,4 +95,26 @@ def runSteps (m : FVMesh K) (fixed : Nat → Bool) (U : Nat → Cx K) (solve : (
     | none => none
     | some s' => runSteps m fixed U solve eps gamma u dt mb k s'
 
+/-- one un-screened update as the repaired `update` runs it: Euler step, re-imposition of the terminal value
+    on pinned sites (`tp = none`: nothing pinned), then `solve_for_observables` -/
+def fullStepP (m : FVMesh K) (fixed : Nat → Bool) (tp : Option (Cx K)) (U : Nat → Cx K)
+    (solve : (Nat → K) → (Nat → K)) (eps : Nat → K) (gamma u dt : K) (mb : Nat → K) (s : MState K) :
+    Option (MState K) :=
+  match eulerPinnedFn m fixed tp U s.psi (fun r => absSq (s.psi r)) s.mu eps gamma u dt with
+  | none => none
+  | some out =>
+    let psi' := fun r => (out r).1
+    let o := observables m solve U psi' (fun _ => 0) mb
+    some ⟨psi', o.1, o.2.1, o.2.2⟩
+
+/-- `k` pinned updates; `none` as soon as one is refused -/
+def runStepsP (m : FVMesh K) (fixed : Nat → Bool) (tp : Option (Cx K)) (U : Nat → Cx K)
+    (solve : (Nat → K) → (Nat → K)) (eps : Nat → K) (gamma u dt : K) (mb : Nat → K) :
+    Nat → MState K → Option (MState K)
+  | 0, s => some s
+  | k+1, s =>
+    match fullStepP m fixed tp U solve eps gamma u dt mb s with
+    | none => none
+    | some s' => runStepsP m fixed tp U solve eps gamma u dt mb k s'
+
 end Tdgl
